@@ -1051,3 +1051,165 @@ func lemmaMsgDataReencode(b []byte) (m1, m2 *MsgData, e1, e2 error) {
 //@ func lemmaMsgDataReencode(b []byte) (m1, m2 *MsgData, e1, e2 error)
 //@   props C19
 //@   ensures implies(e1 == nil, e2 == nil && m2.version == m1.version && seqeq(m2.Payload, m1.Payload))
+
+// ---- relay envelope: transports and mailbox streams (C07, C12) ---------------------
+// Everything the relay hands to an endpoint enters through one of the two client
+// transports (gRPC stream or websocket with a JSON envelope) or through the
+// server's gRPC stream. The functions below are verified for the absence of
+// panics for every relay answer (every error, every byte string, every
+// sequence of failed reconnects): the stream or socket a receive or send is
+// attempted on exists, a message is looked into only when the relay reported
+// no error, and every retry loop leaves on the quit channel or the context.
+
+func ctxdone(ctx context.Context) bool { return false }
+
+//@ extern websocket.Dial nonnil
+//@ extern HashMailClient.RecvStream nonnil
+//@ extern HashMailClient.SendStream nonnil
+//@ extern HashMail_RecvStreamClient.Recv nonnil
+
+// recvConnected / sendConnected: the transport holds a receive / send stream.
+func recvConnected(t ClientConnTransport) bool {
+	return (is[*grpcTransport](t) && !isnil(as[*grpcTransport](t).receiveStream)) ||
+		(is[*websocketTransport](t) && as[*websocketTransport](t).receiveSocket != nil)
+}
+
+func sendConnected(t ClientConnTransport) bool {
+	return (is[*grpcTransport](t) && !isnil(as[*grpcTransport](t).sendStream)) ||
+		(is[*websocketTransport](t) && as[*websocketTransport](t).sendSocket != nil)
+}
+
+// trFull: a usable transport: one of the two implementations with its mailbox
+// description (and, for gRPC, its client).
+func trFull(t ClientConnTransport) bool {
+	return (is[*grpcTransport](t) && as[*grpcTransport](t) != nil && as[*grpcTransport](t).mailboxInfo != nil && !isnil(as[*grpcTransport](t).client)) ||
+		(is[*websocketTransport](t) && as[*websocketTransport](t) != nil && as[*websocketTransport](t).mailboxInfo != nil)
+}
+
+//@ func stripJSONWrapper(wrapped string) (s string, err error)
+//@   props C07
+
+//@ func statusFromError(err error) (st ClientStatus)
+//@   props C07
+//@   requires !isnil(err)
+
+//@ func (wt *websocketTransport) Recv(ctx context.Context) (msg []byte, retry bool, st ClientStatus, err error)
+//@   props C07
+//@   requires wt != nil && wt.receiveSocket != nil
+//@   ensures wt.receiveSocket == old(wt.receiveSocket)
+
+//@ func (gt *grpcTransport) Recv(ctx context.Context) (msg []byte, retry bool, st ClientStatus, err error)
+//@   props C07
+//@   requires gt != nil && !isnil(gt.receiveStream)
+//@   ensures same(gt.receiveStream, old(gt.receiveStream))
+
+//@ func (wt *websocketTransport) Send(ctx context.Context, streamID []byte, payload []byte) (retry bool, st ClientStatus, err error)
+//@   props C07
+//@   requires wt != nil && wt.sendSocket != nil && !isnil(ctx)
+//@   ensures wt.sendSocket == old(wt.sendSocket)
+
+//@ func (gt *grpcTransport) Send(ctx context.Context, streamID []byte, payload []byte) (retry bool, st ClientStatus, err error)
+//@   props C07
+//@   requires gt != nil && !isnil(gt.sendStream)
+//@   ensures same(gt.sendStream, old(gt.sendStream))
+
+//@ func (wt *websocketTransport) ConnectReceive(ctx context.Context) (err error)
+//@   props C07
+//@   requires wt != nil && wt.mailboxInfo != nil && !isnil(ctx)
+//@   modifies wt.receiveSocket
+//@   ensures implies(err == nil, wt.receiveSocket != nil)
+//@   ensures implies(old(wt.receiveSocket) != nil, wt.receiveSocket != nil)
+
+//@ func (gt *grpcTransport) ConnectReceive(ctx context.Context) (err error)
+//@   props C07
+//@   requires gt != nil && gt.mailboxInfo != nil && !isnil(gt.client)
+//@   modifies gt.receiveStream
+//@   ensures implies(err == nil, !isnil(gt.receiveStream))
+//@   ensures implies(!isnil(old(gt.receiveStream)), !isnil(gt.receiveStream))
+
+//@ func (wt *websocketTransport) ConnectSend(ctx context.Context) (err error)
+//@   props C07
+//@   requires wt != nil && wt.mailboxInfo != nil && !isnil(ctx)
+//@   modifies wt.sendSocket
+//@   ensures implies(err == nil, wt.sendSocket != nil)
+//@   ensures implies(old(wt.sendSocket) != nil, wt.sendSocket != nil)
+
+//@ func (gt *grpcTransport) ConnectSend(ctx context.Context) (err error)
+//@   props C07
+//@   requires gt != nil && !isnil(gt.client)
+//@   modifies gt.sendStream
+//@   ensures implies(err == nil, !isnil(gt.sendStream))
+//@   ensures implies(!isnil(old(gt.sendStream)), !isnil(gt.sendStream))
+
+//@ func (c *ClientConn) setStatus(s ClientStatus)
+//@   props C07
+//@   requires c != nil && !isnil(c.onNewStatus) && unheld(&c.statusMu)
+//@   modifies c.status, c.statusMu
+//@   ensures unheld(&c.statusMu)
+
+//@ func (c *ClientConn) createReceiveMailBox(ctx context.Context, initialBackoff time.Duration)
+//@   props C07 C12
+//@   requires c != nil && trFull(c.transport) && !isnil(ctx) && !isnil(c.log) && c.quit != nil
+//@   modifies as[*grpcTransport](c.transport).receiveStream, as[*websocketTransport](c.transport).receiveSocket, chanlog[struct{}]()
+//@   ensures @C07 recvConnected(c.transport) || closed(c.quit) || ctxdone(ctx)
+//@   ensures implies(old(recvConnected(c.transport)), recvConnected(c.transport))
+//@   loop 0 invariant implies(old(recvConnected(c.transport)), recvConnected(c.transport))
+
+//@ func (c *ClientConn) createSendMailBox(ctx context.Context, initialBackoff time.Duration)
+//@   props C07 C12
+//@   requires c != nil && trFull(c.transport) && !isnil(ctx) && !isnil(c.log) && c.quit != nil
+//@   modifies as[*grpcTransport](c.transport).sendStream, as[*websocketTransport](c.transport).sendSocket, chanlog[struct{}]()
+//@   ensures @C07 sendConnected(c.transport) || closed(c.quit) || ctxdone(ctx)
+//@   ensures implies(old(sendConnected(c.transport)), sendConnected(c.transport))
+//@   loop 0 invariant implies(old(sendConnected(c.transport)), sendConnected(c.transport))
+
+//@ func (c *ClientConn) recv(ctx context.Context) (b []byte, err error)
+//@   props C07 C12
+//@   requires c != nil && trFull(c.transport) && !isnil(ctx) && !isnil(c.log) && c.quit != nil && !isnil(c.onNewStatus)
+//@   requires unheld(&c.receiveMu) && unheld(&c.statusMu)
+//@   noframe
+//@   loop 0 invariant (recvConnected(c.transport) || closed(c.quit) || ctxdone(ctx)) && unheld(&c.statusMu)
+
+//@ func (c *ClientConn) send(ctx context.Context, payload []byte) (err error)
+//@   props C07 C12
+//@   requires c != nil && c.connKit != nil && trFull(c.transport) && !isnil(ctx) && !isnil(c.log) && c.quit != nil && !isnil(c.onNewStatus)
+//@   requires unheld(&c.sendMu) && unheld(&c.statusMu)
+//@   noframe
+//@   loop 0 invariant (sendConnected(c.transport) || closed(c.quit) || ctxdone(ctx)) && unheld(&c.statusMu)
+
+//@ func (c *ServerConn) setStatus(s ServerStatus)
+//@   props C07
+//@   requires c != nil && unheld(&c.statusMu)
+//@   modifies c.status, c.statusMu
+//@   ensures unheld(&c.statusMu)
+
+//@ func (c *ServerConn) createReceiveMailBox(ctx context.Context, initialBackoff time.Duration)
+//@   props C07 C12
+//@   requires c != nil && c.connKit != nil && !isnil(c.client) && !isnil(ctx) && !isnil(c.log) && c.quit != nil && unheld(&c.statusMu)
+//@   modifies c.receiveStream, c.receiveBoxCreated, c.status, c.statusMu, chanlog[struct{}]()
+//@   ensures @C07 !isnil(c.receiveStream) || closed(c.quit) || ctxdone(ctx)
+//@   ensures unheld(&c.statusMu)
+//@   ensures implies(!isnil(old(c.receiveStream)), !isnil(c.receiveStream))
+//@   loop 0 invariant implies(!isnil(old(c.receiveStream)), !isnil(c.receiveStream))
+
+//@ func (c *ServerConn) createSendMailBox(ctx context.Context, initialBackoff time.Duration)
+//@   props C07 C12
+//@   requires c != nil && c.connKit != nil && !isnil(c.client) && !isnil(ctx) && !isnil(c.log) && c.quit != nil
+//@   modifies c.sendStream, c.sendBoxCreated, chanlog[struct{}]()
+//@   ensures @C07 !isnil(c.sendStream) || closed(c.quit) || ctxdone(ctx)
+//@   ensures implies(!isnil(old(c.sendStream)), !isnil(c.sendStream))
+//@   loop 0 invariant implies(!isnil(old(c.sendStream)), !isnil(c.sendStream))
+
+//@ func (c *ServerConn) recvFromStream(ctx context.Context) (b []byte, err error)
+//@   props C07 C12
+//@   requires c != nil && c.connKit != nil && !isnil(c.client) && !isnil(ctx) && !isnil(c.log) && c.quit != nil
+//@   requires unheld(&c.receiveStreamMu) && unheld(&c.statusMu)
+//@   noframe
+//@   loop 0 invariant (!isnil(c.receiveStream) || closed(c.quit) || ctxdone(ctx)) && unheld(&c.receiveStreamMu) && unheld(&c.statusMu)
+
+//@ func (c *ServerConn) sendToStream(ctx context.Context, payload []byte) (err error)
+//@   props C07 C12
+//@   requires c != nil && c.connKit != nil && !isnil(c.client) && !isnil(ctx) && !isnil(c.log) && c.quit != nil
+//@   requires unheld(&c.sendStreamMu) && unheld(&c.statusMu)
+//@   noframe
+//@   loop 0 invariant (!isnil(c.sendStream) || closed(c.quit) || ctxdone(ctx)) && unheld(&c.sendStreamMu) && unheld(&c.statusMu)
